@@ -4064,6 +4064,11 @@ class TLSConnection(TLSRecordLayer):
                         clientHello.getExtension(
                                 ExtensionType.extended_master_secret):
                     session = None
+                # a session made without EMS is not continued once the
+                # settings require EMS
+                if session and not session.extendedMasterSecret and \
+                        settings.requireExtendedMasterSecret:
+                    session = None
             except KeyError:
                 pass
 
